@@ -643,6 +643,10 @@ func runC04(c *fw.Ctx) {
 	// hand-written expansion (identifier -> selector) with the points Start, X (after the dot) and End
 	c04Qualified(c)
 
+	// two decorated files restored by one FileRestorer and printed only afterwards: every comment
+	// exactly once, in the output of its own file
+	c04Reuse(c)
+
 	// filled instances: accessor monitor on every node type with every point populated
 	for i, t := range gen.NodeTypes() {
 		if !c.Mine(i) {
@@ -771,6 +775,84 @@ func c04Qualified(c *fw.Ctx) {
 			c.Observe("type_points", "Ident(qualified).Start")
 			c.Observe("type_points", "Ident(qualified).X")
 			c.Observe("type_points", "Ident(qualified).End")
+			c.Nontrivial(id)
+		})
+	}
+}
+
+func c04Reuse(c *fw.Ctx) {
+	files := corpus.Sample(c.Rand("reuse-files"), c.Pick(80, 1200))
+	for i := 0; i+1 < len(files); i += 2 {
+		if !c.Mine(i / 2) {
+			continue
+		}
+		pa, pb := files[i], files[i+1]
+		id := "reuse:" + corpus.Rel(pa) + "+" + corpus.Rel(pb)
+		c.Case(id, func() {
+			fr := decorator.NewRestorer().FileRestorer()
+			type one struct {
+				af    *ast.File
+				texts map[string]bool
+				src   string
+			}
+			var rs []one
+			for k, p := range []string{pa, pb} {
+				src := readFile(p)
+				if src == nil || len(src) > 60000 {
+					return
+				}
+				f, err := decorator.Parse(src)
+				if err != nil {
+					return
+				}
+				texts := map[string]bool{}
+				n := 0
+				decorateAll(f, func(nd dst.Node, point string) string {
+					n++
+					if n%5 != 0 {
+						return ""
+					}
+					t := fmt.Sprintf("/*r%d.%d*/", k, n)
+					texts[t] = true
+					return t
+				})
+				var af *ast.File
+				if sig, detail := fw.Try(func() { af, err = fr.RestoreFile(f) }); sig != "" {
+					c.Violate("restore-failed", sig, id+" [file-restorer-reused]\n"+detail, string(src))
+					return
+				}
+				if err != nil {
+					return
+				}
+				rs = append(rs, one{af, texts, string(src)})
+			}
+			for k, r := range rs {
+				var buf bytes.Buffer
+				if err := format.Node(&buf, fr.Fset, r.af); err != nil {
+					c.Violate("print-failed", "print-failed:file-restorer-reused", fmt.Sprintf("%s file #%d: %v", id, k, err), r.src)
+					return
+				}
+				toks, _ := obs.Scan(buf.Bytes())
+				occ := map[string]int{}
+				for _, t := range toks {
+					if t.Tok == token.COMMENT {
+						occ[t.Lit]++
+					}
+				}
+				for t := range r.texts {
+					if occ[t] != 1 {
+						c.Violate("print-exactly-once", "print-exactly-once:file-restorer-reused", fmt.Sprintf("%s: comment %q of file #%d occurs %d times in that file's output (printed after both files were restored)", id, t, k, occ[t]), r.src)
+						return
+					}
+				}
+				for t := range rs[1-k].texts {
+					if occ[t] != 0 {
+						c.Violate("print-exactly-once", "print-exactly-once:foreign-comment", fmt.Sprintf("%s: comment %q of file #%d is printed in the output of file #%d", id, t, 1-k, k), r.src)
+						return
+					}
+				}
+				c.Count("reuse_comments_checked", int64(len(r.texts)))
+			}
 			c.Nontrivial(id)
 		})
 	}
